@@ -458,6 +458,98 @@ def trap_dataset(rng, tail=None, names=None, order=None, head=None, sk=None):
     return ds, {"s": s, "k": k, "traps": traps, "order": order, "good_score_unifying": s * s * traps}
 
 
+# sizes at which implementations typically switch strategy or a narrow type overflows: block sizes of vectorised code,
+# powers of two (int8 / uint8 / int16 limits show up as positions or ids), numpy's print threshold, round thresholds
+THRESHOLD_SIZES = [63, 64, 65, 100, 127, 128, 129, 200, 255, 256, 257, 300, 499, 500, 501, 511, 512, 513, 600, 601, 999, 1000,
+                   1001, 1023, 1024, 1025]
+
+
+def large_dataset(rng, n, m=None, style=None, names=None):
+    """(dataset, base order): n elements, a few rankings that are cheap to generate and structured the way large real
+    datasets are: perturbations of one order (adjacent swaps, local ties), identical rankings, groups of tied neighbours,
+    independent permutations; optionally incomplete (a suffix or a random tenth of the elements missing, an empty ranking)"""
+    base = list(names) if names is not None else list(range(n))
+    if names is None and rng.random() < 0.5:
+        rng.shuffle(base)
+    style = style or rng.choice(["near", "near", "near", "identical", "groups", "random", "near-incomplete", "near-incomplete"])
+    m = m or rng.choice([1, 2, 3, 3, 4, 5])
+    ds = []
+    for _ in range(m):
+        if style == "random":
+            r = list(base)
+            rng.shuffle(r)
+            ds.append([[e] for e in r])
+            continue
+        order = list(base)
+        if style != "identical":
+            for _ in range(rng.choice([0, 1, 3, 8, n // 20 + 1])):
+                i = rng.randrange(n - 1)
+                order[i], order[i + 1] = order[i + 1], order[i]
+        r = []
+        if style == "groups":
+            at = 0
+            g = rng.choice([2, 3, 8, 16])
+            while at < n:
+                sz = rng.randint(1, g)
+                r.append(order[at:at + sz])
+                at += sz
+        else:
+            tie_p = rng.choice([0.0, 0.0, 0.02, 0.1])
+            for e in order:
+                if r and rng.random() < tie_p:
+                    r[-1].append(e)
+                else:
+                    r.append([e])
+        if style == "near-incomplete":
+            how = rng.choice(["suffix", "tenth", "suffix"])
+            if how == "suffix":
+                cut = rng.randint(n // 2, n - 1)
+                gone = set(order[cut:])
+            else:
+                gone = {e for e in order if rng.random() < 0.1}
+            r = [[e for e in b if e not in gone] for b in r]
+            r = [b for b in r if b]
+        ds.append(r)
+    if style == "near-incomplete":
+        seen = set(universe_of(ds))
+        missing = [e for e in base if e not in seen]
+        if missing:
+            ds.append([[e] for e in missing])
+        if rng.random() < 0.3:
+            ds.insert(rng.randrange(len(ds) + 1), [])
+    return ds, base
+
+
+def large_candidate(rng, base, style=None):
+    """a complete candidate over `base` (the order most rankings of large_dataset follow)"""
+    n = len(base)
+    style = style or rng.choice(["groups", "groups", "one-bucket", "identity", "near", "reverse", "random", "two-buckets"])
+    if style == "one-bucket":
+        return style, [list(base)]
+    if style == "two-buckets":
+        cut = rng.randint(1, n - 1)
+        return style, [list(base[:cut]), list(base[cut:])]
+    order = list(base)
+    if style == "reverse":
+        order.reverse()
+    elif style == "random":
+        rng.shuffle(order)
+    elif style == "near":
+        for _ in range(rng.choice([1, 3, 8])):
+            i = rng.randrange(n - 1)
+            order[i], order[i + 1] = order[i + 1], order[i]
+    if style == "groups":
+        g = rng.choice([2, 4, 8, 8, 16, 32])
+        out, at = [], rng.choice([0, 0, 1, 3])
+        if at:
+            out.append(order[:at])
+        while at < n:
+            out.append(order[at:at + g])
+            at += g
+        return style, out
+    return style, [[e] for e in order]
+
+
 def universe_of(ds):
     return [e for r in ds for b in r for e in b]
 
